@@ -22,7 +22,7 @@ class Builder:
     def __init__(self, rng, p_doc=0.5, max_depth=3, kinds=None, docline=None, max_doc_lines=4,
                  mkparam=None, allow_dangling=True, allow_cpa=True, hostile_names=True, allow_blocks=True,
                  mkdoc=None, compound_generic=True, max_items=8, name_forms=False, trigger=":keyword",
-                 p_trigger=0.0):
+                 p_trigger=0.0, p_between=0.12, p_reuse_params=0.12):
         self.rng = rng
         self.uid = 0
         self.p_doc = p_doc
@@ -42,6 +42,10 @@ class Builder:
         self.name_forms = name_forms
         self.trigger = trigger
         self.p_trigger = p_trigger
+        self.p_between = p_between
+        self.p_reuse_params = p_reuse_params
+        self._last_params = {}
+        self.unasserted_impl_names = set()
 
     # ---- small helpers
     def new_uid(self):
@@ -70,6 +74,10 @@ class Builder:
 
     def params(self, uid, kind, lo=0, hi=4):
         """-> (written list, expected list)"""
+        # sometimes the very same parameter list as an earlier definition of this kind (shared-state bugs need equal lists)
+        if kind in self._last_params and self.rng.random() < self.p_reuse_params:
+            w, e = self._last_params[kind]
+            return list(w), list(e)
         n = self.rng.randint(lo, hi)
         w, e = [], []
         for j in range(n):
@@ -79,7 +87,26 @@ class Builder:
                 a = b = f"pN{uid}Z{j}"
             w.append(a)
             e.append(b)
+        if w:
+            self._last_params[kind] = (list(w), list(e))
         return w, e
+
+    def compound(self, depth=0):
+        """A parenthesised group with plain arguments before, between and after nested groups."""
+        r = self.rng
+        out = []
+        for _ in range(r.randint(0, 4)):
+            if depth < 3 and r.random() < 0.35:
+                out.append(self.compound(depth + 1))
+            else:
+                out.append(r.choice(["A", "AND", "OR", "NOT", "x", "${v}", '"q s"', "1", "STREQUAL"]))
+        return out
+
+    def gap_items(self):
+        """0-2 non-definition commands between a declaration and its implementing definition."""
+        if self.rng.random() >= self.p_between:
+            return []
+        return [self.rng.choice([self.option, self.set_, self.plain, self.add_test])() for _ in range(self.rng.randint(1, 2))]
 
     def def_name(self, prefix, uid):
         base = self.name(prefix, uid)
@@ -156,7 +183,11 @@ class Builder:
             args = ["EXPECTFAIL", "NAME", nm]
         kind = "ct_add_section" if section else "ct_add_test"
         impl = self.test_impl(depth, nm)
-        return Item(kind, kind, args, uid, doc=self.doc(uid), impl=impl, name=nm, expectfail=ef)
+        it = Item(kind, kind, args, uid, doc=self.doc(uid), impl=impl, name=nm, expectfail=ef)
+        it.between = self.gap_items()
+        if it.between:
+            self.unasserted_impl_names.add(impl.gt["name"])
+        return it
 
     def test_impl(self, depth, nm):
         r = self.rng
@@ -183,8 +214,10 @@ class Builder:
         pool = PLAIN_CMDS if self.hostile_names else PLAIN_CMDS[:14]
         cmd = r.choice(pool)
         args = [f"gN{uid}Z"] + [self.simple_value() for _ in range(r.randint(0, 3))]
-        if self.compound_generic and r.random() < 0.15:
-            args.insert(r.randint(0, len(args)), [self.simple_value(), "AND", [self.simple_value()]])
+        if self.compound_generic and r.random() < 0.2:
+            args.insert(r.randint(0, len(args)), self.compound())
+            if r.random() < 0.3:
+                args.insert(r.randint(0, len(args)), self.compound())
         d = self.doc(uid, force_doc)
         return Item("generic" if d is not None else "plain", cmd.lower(), args, uid, doc=d, written_cmd=cmd)
 
@@ -195,7 +228,7 @@ class Builder:
         if op == "foreach":
             args = [f"iN{uid}Z", "a", "b"]
         else:
-            args = [f"cN{uid}Z"] + (["AND", ["x", "OR", "y"]] if (self.compound_generic and r.random() < 0.3) else [])
+            args = [f"cN{uid}Z"] + (["AND", self.compound(), "OR", "z"] if (self.compound_generic and r.random() < 0.3) else [])
         body = self.items(depth + 1, ctx="block")
         d = self.doc(uid) if r.random() < 0.3 else None
         return Item("block", op, args, uid, doc=d, body=body, endcmd=cl)
@@ -238,7 +271,11 @@ class Builder:
         impl = Item(ikind, ikind, [ref, selfname] + pw, iuid, body=body, endcmd="end" + ikind, is_impl=True,
                     name=ref, params=pe)
         kind = "cpp_constructor" if ctor else "cpp_member"
-        return Item(kind, kind, [nm, cls] + types, uid, doc=self.doc(uid), impl=impl, name=nm, params=pe, types=types)
+        it = Item(kind, kind, [nm, cls] + types, uid, doc=self.doc(uid), impl=impl, name=nm, params=pe, types=types)
+        it.between = [x for x in self.gap_items() if x.kind != "cpp_attr"]
+        if it.between:
+            self.unasserted_impl_names.add(impl.gt["name"])
+        return it
 
     def attr(self, cls):
         r = self.rng
